@@ -3,8 +3,18 @@ C19 — Ant-colony generation yields valid tours; pheromone updates are well-for
 Property theorems only; helper lemmas are in `Proofs/C19.lean`.
 -/
 import MahfModel.Proofs.C19
+set_option linter.unusedSectionVars false
 namespace MahfModel.Props.C19
 open MahfModel.Aco
+
+/-- Integer instance used for concrete (counter)examples. -/
+def intNum : Num Int :=
+  { pow := fun x _ => x, fin := fun _ => true, tle := fun a b => decide (a ≤ b), eps := 0,
+    close := fun a b => a == b }
+
+/-- Rational instance used to show that the hypotheses of the ordered-field theorems are satisfiable. -/
+def ratNum : Num ℚ :=
+  { pow := fun x _ => x, fin := fun _ => true, tle := dle, eps := 1, close := fun a b => decide (a = b) }
 
 section generation
 variable {F : Type} [Add F] [Sub F] [Mul F] [Div F] [LT F] [LE F] [DecidableLT F] [DecidableLE F]
@@ -60,7 +70,72 @@ theorem tour_is_perm_from_zero (N : Num F) (pm : PM F) (dist : Nat → Nat → F
         exact key t ⟨by simpa using this.1, this.2⟩
       · exact key t ((sampleAll_spec N pm dist α β n numAnts wits ts' hs).2 t ht)
 
+
+/-- The hypotheses are satisfiable: four cities, two ants, all trails equal (ties go to the last city). -/
+example : generate intNum (PM.new 4 1) (fun _ _ => 1) 1 1 4 2 [[1, 0, 0], [2, 1, 0]] =
+    .tours [[0, 3, 2, 1], [0, 2, 1, 3], [0, 3, 2, 1]] := by decide
+
+/-- Meaning of the executable predicate the check evaluates on the implementation's output. -/
+theorem holdsGen_sound (pm : PM F) (n numAnts : Nat) (ts : List (List Nat))
+    (h : holdsGen pm n numAnts ts = true) :
+    ts.length = 1 + numAnts ∧ ∀ t ∈ ts, t.Perm (List.range n) ∧ t.head? = some 0 := by
+  simp only [holdsGen, Bool.and_eq_true, beq_iff_eq, List.all_eq_true] at h
+  exact ⟨h.1.1, fun t ht => perm_of_isPermFromZero n t (h.1.2 t ht)⟩
+
 end generation
+
+section greedy
+variable {F : Type} [LinearOrder F]
+
+/-- `max_by(total_cmp)` on a linearly ordered carrier returns the index of a maximal element, and the LAST
+one among several maximal elements (every later element is strictly smaller). -/
+theorem argmax_is_last_max (l : List F) (k : Nat) (h : argmaxLast dle l = some k) :
+    ∃ w, l[k]? = some w ∧ (∀ x ∈ l, x ≤ w) ∧ ∀ j v, k < j → l[j]? = some v → v < w :=
+  argmaxLast_spec l k h
+
+example : argmaxLast dle [(1 : Int), 3, 2, 3, 0] = some 3 := by decide
+
+variable [OfNat F 0]
+
+/-- The first generated route is greedy: at every step it moves to a remaining city whose pheromone on
+the edge from the current city is maximal among all remaining cities. -/
+theorem greedy_is_argmax (N : Num F) (hN : N.tle = dle) (pm : PM F) (n : Nat) (g : List Nat)
+    (h : greedyTour N pm n = some g) : greedyOk pm n g = true := by
+  have hnd : (remaining0 n).Nodup := by simp [remaining0, List.nodup_range']
+  obtain ⟨suffix, hg, hok⟩ := greedyGo_ok N hN pm _ [0] 0 (remaining0 n) g (Nat.le_refl _) hnd h
+  subst hg
+  simp [greedyOk, hok]
+
+section
+variable [Add F] [Sub F] [Mul F] [Div F] [OfNat F 1]
+
+/-- `∀ input, holds input (model input)` for generation: whenever the model of `AcoGeneration` returns
+(no panic, legal witness) on at least one city, all property clauses hold of its output. -/
+theorem holds_generation (N : Num F) (hN : N.tle = dle) (pm : PM F) (dist : Nat → Nat → F) (α β : F)
+    (n numAnts : Nat) (wits : List (List Nat)) (ts : List (List Nat)) (hn : 1 ≤ n)
+    (h : generate N pm dist α β n numAnts wits = .tours ts) : holdsGen pm n numAnts ts = true := by
+  have hc := generation_count N pm dist α β n numAnts wits ts h
+  have hp := tour_is_perm_from_zero N pm dist α β n numAnts wits ts hn h
+  simp only [holdsGen, Bool.and_eq_true, beq_iff_eq, List.all_eq_true]
+  refine ⟨⟨hc, fun t ht => isPermFromZero_of_perm n t (hp t ht).1 (hp t ht).2⟩, ?_⟩
+  simp only [generate] at h
+  cases hg : greedyTour N pm n with
+  | none => simp [hg] at h
+  | some g =>
+    simp only [hg] at h
+    cases hs : sampleAll N pm dist α β n numAnts wits with
+    | panic => simp [hs] at h
+    | badWitness => simp [hs] at h
+    | tours ts' =>
+      simp only [hs] at h
+      injection h with h; subst h
+      exact greedy_is_argmax N hN pm n g hg
+
+example : intNum.tle = dle ∧ holdsGen (PM.new 4 (1 : Int)) 4 2 [[0, 3, 2, 1], [0, 2, 1, 3], [0, 3, 2, 1]] = true :=
+  ⟨rfl, by decide⟩
+
+end
+end greedy
 
 section updates
 variable {F : Type} [Add F] [Sub F] [Mul F] [Div F] [LT F] [LE F] [DecidableLT F] [DecidableLE F]
@@ -87,10 +162,244 @@ theorem mmas_no_ants_panics (pm : PM F) (ρ hi lo : F) (g : Ind F) :
 
 end updates
 
-/-- Integer instance used for concrete (counter)examples. -/
-def intNum : Num Int :=
-  { pow := fun x _ => x, fin := fun _ => true, tle := fun a b => decide (a ≤ b), eps := 0,
-    close := fun a b => a == b }
+section field
+variable {F : Type} [Field F] [LinearOrder F] [IsStrictOrderedRing F]
+
+/-- Closed form of the ant-system entry in exact arithmetic: `(1 - ρ)·τ_ij` plus, for every individual but
+the first, `c / length` times the number of its consecutive-city edges joining `i` and `j` (in either
+direction; the closing edge is not among them). Entries without such an edge are only evaporated. -/
+theorem as_update_closed_form (pm : PM F) (ρ c : F) (pop : List (Ind F)) (i j : Nat)
+    (ho : ∀ ind ∈ pop.drop 1, ind.obj.isSome = true) :
+    asSpec pm ρ c pop i j =
+      (1 - ρ) * pm.getD i j 0 +
+        ((pop.drop 1).map (fun ind => (hits ind.route i j : F) * (c / ind.obj.getD 1))).sum := by
+  rw [asSpec, asSpecGo_closed c i j _ _ ho]
+  ring
+
+example : hits [0, 2, 1, 3] 1 2 = 1 ∧ hits [0, 2, 1, 3] 3 0 = 0 ∧ hits [0, 2, 1, 3] 0 2 = 1 := by decide
+
+/-- A symmetric matrix stays symmetric under the ant-system update. -/
+theorem as_update_symmetric (pm : PM F) (ρ c : F) (pop : List (Ind F)) (i j : Nat)
+    (ho : ∀ ind ∈ pop.drop 1, ind.obj.isSome = true) (hsym : pm.getD i j 0 = pm.getD j i 0) :
+    asSpec pm ρ c pop i j = asSpec pm ρ c pop j i := by
+  rw [asSpec, asSpec, hsym]
+  exact asSpecGo_symm c i j _ _ ho
+
+/-- Trails stay non-negative: evaporation rate in `[0, 1]`, non-negative decay coefficient, positive tour
+lengths and a non-negative old entry give a non-negative new entry. -/
+theorem pheromone_nonneg (pm : PM F) (ρ c : F) (pop : List (Ind F)) (i j : Nat)
+    (hρ : 0 ≤ ρ ∧ ρ ≤ 1) (hc : 0 ≤ c) (ho : ∀ ind ∈ pop.drop 1, ∃ o, ind.obj = some o ∧ 0 < o)
+    (hx : 0 ≤ pm.getD i j 0) : 0 ≤ asSpec pm ρ c pop i j := by
+  rw [asSpec]
+  exact asSpecGo_nonneg c hc i j _ _ (mul_nonneg hx (by linarith [hρ.2])) ho
+
+example : (0 : ℚ) ≤ asSpec (PM.new 3 (1 / 2 : ℚ)) 1 3 [⟨[0, 1, 2], some 4⟩, ⟨[0, 2, 1], some 5⟩] 1 2 :=
+  pheromone_nonneg _ _ _ _ _ _ ⟨by norm_num, by norm_num⟩ (by norm_num)
+    (by intro ind h; simp at h; subst h; exact ⟨5, rfl, by norm_num⟩) (by simp [PM.getD, PM.get?, PM.row?, PM.new])
+
+/-- Max-min update (partial: at least one sampled, evaluated individual — see `mmas_no_ants_panics` for the
+excluded region): it does not panic, rewards an individual of least objective value among the individuals
+but the first, and every entry is `clamp(min, max, (1 - ρ)·τ_ij + deposits of that individual at 1/length)`. -/
+theorem mmas_update_spec_partial (pm : PM F) (ρ hi lo : F) (pop : List (Ind F)) (hwf : pm.wf = true)
+    (hants : 2 ≤ pop.length) (ho : ∀ ind ∈ pop.drop 1, ind.obj.isSome = true)
+    (hr : routesValid pm.dim (pop.drop 1) = true) (hb : lo ≤ hi) :
+    ∃ best o pm', firstMin (pop.drop 1) = some (best, o) ∧ best ∈ pop.drop 1 ∧ best.obj = some o ∧
+      (∀ x ∈ pop.drop 1, ∀ v, x.obj = some v → o ≤ v) ∧
+      mmasUpdate pm ρ hi lo pop = some pm' ∧ pm'.dim = pm.dim ∧ pm'.wf = true ∧
+      ∀ i j, i < pm.dim → j < pm.dim →
+        pm'.get? i j = some (clamp lo hi (depositEdges (1 / o) i j (edges best.route) (pm.getD i j 0 * (1 - ρ)))) := by
+  have hne : pop.drop 1 ≠ [] := by
+    intro h
+    have := congrArg List.length h
+    simp at this
+    omega
+  obtain ⟨⟨best, o⟩, hmin⟩ := Option.isSome_iff_exists.mp (firstMin_isSome _ hne ho)
+  obtain ⟨hmem, hobj⟩ := firstMin_mem _ best o hmin
+  have hroute : ∀ c ∈ best.route, c < pm.dim := (routesValid_iff _ _).mp hr best hmem
+  obtain ⟨pm', h1, hd, hw, hg⟩ := mmasUpdate_spec pm ρ hi lo pop hwf best o hmin hroute hb
+  refine ⟨best, o, pm', hmin, hmem, hobj, firstMin_le _ best o hmin, h1, hd, hw, ?_⟩
+  intro i j hi' hj'
+  rw [hg i j hi' hj']
+  simp only [mmasSpec, hmin]
+
+/-- The full (unrestricted) statement — FALSE for populations without a sampled individual
+(`mmas_no_ants_panics`); kept so that the gap stays visible. -/
+def mmas_update_total : Prop :=
+  ∀ (pm : PM F) (ρ hi lo : F) (pop : List (Ind F)), pm.wf = true → pop ≠ [] →
+    (∀ ind ∈ pop.drop 1, ind.obj.isSome = true) → routesValid pm.dim (pop.drop 1) = true → lo ≤ hi →
+    (mmasUpdate pm ρ hi lo pop).isSome = true
+
+/-- After the max-min update EVERY trail lies within `[min, max]` — whatever the old matrix was, whichever
+route was rewarded (this is what the `fix:` commit established: the whole matrix is clamped). -/
+theorem mmas_within_bounds (pm : PM F) (ρ hi lo : F) (pop : List (Ind F)) (pm' : PM F) (hb : lo ≤ hi)
+    (h : mmasUpdate pm ρ hi lo pop = some pm') :
+    (∀ x ∈ pm'.inner, lo ≤ x ∧ x ≤ hi) ∧ ∀ i j x, pm'.get? i j = some x → lo ≤ x ∧ x ≤ hi := by
+  have hall : ∀ x ∈ pm'.inner, lo ≤ x ∧ x ≤ hi := by
+    simp only [mmasUpdate] at h
+    split at h
+    · simp at h
+    · split at h
+      · simp at h
+      · simp only [hb, if_true] at h
+        injection h with h
+        subst h
+        intro x hx
+        simp only [List.mem_map] at hx
+        obtain ⟨y, _, rfl⟩ := hx
+        exact clamp_bounds lo hi y hb
+  exact ⟨hall, fun i j x hx => hall x (get?_mem pm' hx)⟩
+
+example : ∃ pm', mmasUpdate (PM.new 3 (100 : ℚ)) (1 / 2) 5 1 [⟨[0, 1, 2], some 4⟩, ⟨[0, 2, 1], some 5⟩] = some pm' ∧
+    pm'.get? 0 1 = some 5 := by
+  refine ⟨_, rfl, ?_⟩
+  decide +kernel
+
+/-- Max-min trails are non-negative as soon as the lower bound is. -/
+theorem mmas_nonneg (pm : PM F) (ρ hi lo : F) (pop : List (Ind F)) (pm' : PM F) (hb : lo ≤ hi) (hlo : 0 ≤ lo)
+    (h : mmasUpdate pm ρ hi lo pop = some pm') : ∀ x ∈ pm'.inner, 0 ≤ x :=
+  fun x hx => le_trans hlo ((mmas_within_bounds pm ρ hi lo pop pm' hb h).1 x hx).1
+
+
+/-- `∀ input, holds input (model input)` for the ant-system update: on every valid input (well-formed
+non-negative matrix, routes inside it, positive objective values, `ρ ∈ [0, 1]`, `c ≥ 0`) the model does not
+panic and all property clauses — entry formula, finiteness, non-negativity, symmetry preservation — hold. -/
+theorem holds_as_update (N : Num F) (hfin : ∀ x, N.fin x = true) (hclose : ∀ a b, N.close a b = decide (a = b))
+    (pm : PM F) (ρ c : F) (pop : List (Ind F)) (hwf : pm.wf = true)
+    (hr : routesValid pm.dim (pop.drop 1) = true) (hρ : 0 ≤ ρ ∧ ρ ≤ 1) (hc : 0 ≤ c)
+    (ho : ∀ ind ∈ pop.drop 1, ∃ o, ind.obj = some o ∧ 0 < o) (hnn : ∀ x ∈ pm.inner, 0 ≤ x) :
+    ∃ pm', asUpdate pm ρ c pop = some pm' ∧ holdsAs N pm ρ c pop pm' = true := by
+  have ho' : ∀ ind ∈ pop.drop 1, ind.obj.isSome = true := by
+    intro ind h; obtain ⟨o, h1, _⟩ := ho ind h; simp [h1]
+  obtain ⟨pm', h1, hd, hw, hg⟩ := as_update_spec pm ρ c pop hwf hr ho'
+  refine ⟨pm', h1, ?_⟩
+  have hget : ∀ i j, i < pm.dim → j < pm.dim → pm'.getD i j 0 = asSpec pm ρ c pop i j :=
+    fun i j hi hj => getD_of_get? pm' (hg i j hi hj)
+  have hold : ∀ i j, i < pm.dim → j < pm.dim → 0 ≤ pm.getD i j 0 := by
+    intro i j hi hj
+    obtain ⟨x, hx⟩ := get?_isSome pm hwf hi hj
+    rw [getD_of_get? pm hx]
+    exact hnn x (get?_mem pm hx)
+  simp only [holdsAs, Bool.and_eq_true, beq_iff_eq, allEntries_iff, Bool.or_eq_true, Bool.not_eq_true',
+    decide_eq_true_eq, isSym, hclose, hfin]
+  refine ⟨⟨⟨hd, hw⟩, ?_⟩, ?_⟩
+  · intro i hi j hj
+    rw [hget i j hi hj]
+    exact ⟨⟨rfl, trivial⟩, pheromone_nonneg pm ρ c pop i j hρ hc ho (hold i j hi hj)⟩
+  · by_cases hs : ∀ i, i < pm.dim → ∀ j, j < pm.dim → pm.getD i j 0 = pm.getD j i 0
+    · right
+      rw [hd]
+      intro i hi j hj
+      rw [hget i j hi hj, hget j i hj hi]
+      exact as_update_symmetric pm ρ c pop i j ho' (hs i hi j hj)
+    · left
+      by_contra hcon
+      apply hs
+      have : allEntries pm.dim (fun i j => decide (pm.getD i j 0 = pm.getD j i 0)) = true := by
+        simpa using hcon
+      intro i hi j hj
+      simpa using (allEntries_iff _ _).mp this i hi j hj
+
+
+/-- The same for the max-min update (partial: at least one sampled individual), including the bound clause. -/
+theorem holds_mmas_update_partial (N : Num F) (hfin : ∀ x, N.fin x = true)
+    (hclose : ∀ a b, N.close a b = decide (a = b))
+    (pm : PM F) (ρ hi lo : F) (pop : List (Ind F)) (hwf : pm.wf = true) (hants : 2 ≤ pop.length)
+    (hr : routesValid pm.dim (pop.drop 1) = true) (ho : ∀ ind ∈ pop.drop 1, ind.obj.isSome = true)
+    (hlo : 0 ≤ lo) (hb : lo ≤ hi) :
+    ∃ pm', mmasUpdate pm ρ hi lo pop = some pm' ∧ holdsMmas N pm ρ hi lo pop pm' = true := by
+  obtain ⟨best, o, pm', hmin, hmem, hobj, hle, h1, hd, hw, hg⟩ :=
+    mmas_update_spec_partial pm ρ hi lo pop hwf hants ho hr hb
+  refine ⟨pm', h1, ?_⟩
+  have hspec : ∀ i j, mmasSpec pm ρ hi lo pop i j =
+      clamp lo hi (depositEdges (1 / o) i j (edges best.route) (pm.getD i j 0 * (1 - ρ))) := by
+    intro i j; simp only [mmasSpec, hmin]
+  have hget : ∀ i j, i < pm.dim → j < pm.dim → ∀ d, pm'.getD i j d = mmasSpec pm ρ hi lo pop i j :=
+    fun i j hi' hj' d => by rw [hspec]; exact getD_of_get? pm' (hg i j hi' hj')
+  have hbnd := fun i j => clamp_bounds lo hi (depositEdges (1 / o) i j (edges best.route) (pm.getD i j 0 * (1 - ρ))) hb
+  simp only [holdsMmas, Bool.and_eq_true, beq_iff_eq, allEntries_iff, Bool.or_eq_true, Bool.not_eq_true',
+    decide_eq_true_eq, isSym, withinBounds, hclose, hfin]
+  refine ⟨⟨⟨⟨hd, hw⟩, ?_⟩, ?_⟩, ?_⟩
+  · intro i hi' j hj'
+    rw [hget i j hi' hj']
+    refine ⟨⟨rfl, trivial⟩, ?_⟩
+    rw [hspec]
+    exact le_trans hlo (hbnd i j).1
+  · rw [hd]
+    intro i hi' j hj'
+    rw [hget i j hi' hj', hspec]
+    exact hbnd i j
+  · by_cases hs : ∀ i, i < pm.dim → ∀ j, j < pm.dim → pm.getD i j 0 = pm.getD j i 0
+    · right
+      rw [hd]
+      intro i hi' j hj'
+      rw [hget i j hi' hj', hget j i hj' hi', hspec, hspec, hs i hi' j hj', depositEdges_symm]
+    · left
+      by_contra hcon
+      apply hs
+      have : allEntries pm.dim (fun i j => decide (pm.getD i j 0 = pm.getD j i 0)) = true := by
+        simpa using hcon
+      intro i hi' j hj'
+      simpa using (allEntries_iff _ _).mp this i hi' j hj'
+
+
+/-- In exact arithmetic generation cannot panic on any reachable state: with non-negative trails, positive
+distances between distinct cities, a `pow` that maps non-negative bases to non-negative values and the
+positive `1e-15` offset, every weight vector handed to `WeightedIndex::new` is legal — for every witness. -/
+theorem generation_never_panics (N : Num F) (hfin : ∀ x, N.fin x = true)
+    (hpow : ∀ x a, 0 ≤ x → 0 ≤ N.pow x a) (heps : 0 < N.eps) (pm : PM F) (hwf : pm.wf = true)
+    (hn : 1 ≤ pm.dim) (hnn : ∀ x ∈ pm.inner, 0 ≤ x) (dist : Nat → Nat → F)
+    (hd : ∀ i j, i ≠ j → 0 < dist i j) (α β : F) (numAnts : Nat) (wits : List (List Nat)) :
+    generate N pm dist α β pm.dim numAnts wits ≠ .panic := by
+  have hrem : ∀ r ∈ remaining0 pm.dim, r < pm.dim ∧ r ≠ 0 := fun r h => remaining0_mem h
+  have hg := greedyGo_isSome N pm hwf (remaining0 pm.dim).length [0] 0 (remaining0 pm.dim) (by omega)
+    (fun r h => (hrem r h).1)
+  obtain ⟨g, hg⟩ := Option.isSome_iff_exists.mp hg
+  have hs : ∀ (ants : Nat) (ws : List (List Nat)), sampleAll N pm dist α β pm.dim ants ws ≠ .panic := by
+    intro ants
+    induction ants with
+    | zero => intro ws; cases ws <;> simp [sampleAll]
+    | succ ants ih =>
+      intro ws
+      cases ws with
+      | nil => simp [sampleAll]
+      | cons w ws =>
+        simp only [sampleAll]
+        have h1 := sampleGo_no_panic N hfin hpow heps pm hwf hnn dist hd α β w [0] 0 (remaining0 pm.dim)
+          (by omega) hrem (remaining0_nodup _)
+        cases hgo : sampleGo N pm dist α β w [0] 0 (remaining0 pm.dim) with
+        | panic => exact absurd hgo h1
+        | badWitness => simp
+        | ok t =>
+          simp only
+          have h2 := ih ws
+          cases hr : sampleAll N pm dist α β pm.dim ants ws with
+          | panic => exact absurd hr h2
+          | badWitness => simp
+          | tours ts => simp
+  simp only [generate, greedyTour, hg]
+  have h3 := hs numAnts wits
+  cases hr : sampleAll N pm dist α β pm.dim numAnts wits with
+  | panic => exact absurd hr h3
+  | badWitness => simp
+  | tours ts => simp
+
+example : ∃ pm', asUpdate (PM.new 3 (1 / 2 : ℚ)) (1 / 10) 6 [⟨[0, 1, 2], some 4⟩, ⟨[0, 2, 1], some 5⟩] = some pm' ∧
+    holdsAs ratNum (PM.new 3 (1 / 2 : ℚ)) (1 / 10) 6 [⟨[0, 1, 2], some 4⟩, ⟨[0, 2, 1], some 5⟩] pm' = true :=
+  holds_as_update ratNum (fun _ => rfl) (fun _ _ => rfl) _ _ _ _ rfl (by decide) ⟨by norm_num, by norm_num⟩
+    (by norm_num) (by intro ind h; simp at h; subst h; exact ⟨5, rfl, by norm_num⟩)
+    (by intro x hx; simp [PM.new] at hx; rw [hx]; norm_num)
+
+example : ∃ pm', mmasUpdate (PM.new 3 (1 / 2 : ℚ)) (1 / 10) 5 1 [⟨[0, 1, 2], some 4⟩, ⟨[0, 2, 1], some 5⟩] = some pm' ∧
+    holdsMmas ratNum (PM.new 3 (1 / 2 : ℚ)) (1 / 10) 5 1 [⟨[0, 1, 2], some 4⟩, ⟨[0, 2, 1], some 5⟩] pm' = true :=
+  holds_mmas_update_partial ratNum (fun _ => rfl) (fun _ _ => rfl) _ _ _ _ _ rfl (by simp) (by decide)
+    (by intro ind h; simp at h; subst h; rfl) (by norm_num) (by norm_num)
+
+example : generate ratNum (PM.new 3 (1 / 2 : ℚ)) (fun i j => if i = j then 0 else 7) 1 5 3 1 [[1, 0]] ≠ .panic :=
+  generation_never_panics ratNum (fun _ => rfl) (fun _ _ h => h) (by norm_num [ratNum]) _ rfl (by decide)
+    (by intro x hx; simp [PM.new] at hx; rw [hx]; norm_num) _
+    (by intro i j h; simp [h]) _ _ _ _
+
+end field
 
 /-- Counterexample for the recorded finding: valid parameters (`ρ = 0`, `0 ≤ min = 1 < max = 2`), a valid
 matrix, the population `AcoGeneration` produces for `num_ants = 0` — the update property fails (panic). -/
